@@ -52,6 +52,7 @@ RULES = [
      re.compile(r'(?m)^[ \t]*debug_assert(?:_eq)?!\((?:[^;]|\n)*?\);\s*\n'), ''),
     # R1: metric / codec generics
     ('R1a', 'impl<D: Distance> X<D> -> impl X', re.compile(r'impl<(?:\'\w+,\s*)?D: Distance>'), 'impl'),
+    ('R1k', 'generic RNG parameter: <R: Rng + SeedableRng> -> <R: Rng>', re.compile(r'<R: Rng \+ SeedableRng>'), '<R: Rng>'),
     ('R1b', 'Type<D> / Type<\'_, D> / Type<NodeCodec<D>> -> Type',
      re.compile(r'\b(Writer|Reader|Database|Node|Leaf|SplitPlaneNormal|FrozzenReader|ImmutableLeafs|ImmutableTrees|ImmutableSubsetLeafs|TmpNodes|QueryBuilder|ItemIter)<(?:\'\w+,\s*)?(?:D|ND|NodeCodec<D>)>'), r'\1'),
     ('R1c', 'D::f(..) -> Dist::f(..)', re.compile(r'\bD::(?=[a-zA-Z_])'), 'Dist::'),
@@ -84,6 +85,8 @@ RULES = [
     ('R4b', 'a |= b; -> a.or_assign_(b);', re.compile(r'(?m)^([ \t]*)(\w+) \|= (&?\w+);'), r'\1\2.or_assign_(\3);'),
     ('R4c', '&a | &b -> bitor_(&a, &b)', re.compile(r'&(\w+) \| &(\w+)'), r'bitor_(&\1, &\2)'),
     ('R4d', '&a & &b -> bitand_(&a, &b)', re.compile(r'&(\w+) & &(\w+)'), r'bitand_(&\1, &\2)'),
+    ('R12', 'ghost-state threading for the id generator: X.concurrent_node_ids.next() -> X.concurrent_node_ids.next_g_(tmp_nodes) (ids returned before are recorded in the TmpNodes in scope)',
+     re.compile(r'\b(concurrent_node_ids)\s*\.next\(\)'), r'\1.next_g_(tmp_nodes)'),
     # R10: one stand-in error type: conversions between error types are identities
     ('R10a', 'Err(e.into()) -> Err(e)', re.compile(r'\bErr\((\w+)\.into\(\)\)'), r'Err(\1)'),
     ('R10b', '.map_err(Into::into) / .map_err(Error::from) dropped', re.compile(r'\s*\.map_err\((?:Into::into|Error::from|heed::Error::from)\)'), ''),
@@ -138,11 +141,11 @@ def rule_r6b(text):
             if expr.startswith('iter__') or re.match(r'^&(mut )?\w+$', expr):
                 continue  # a borrowed plain collection: left to Verus
             if re.match(r'^\w+$', expr):
-                # `for x in vec` (Vec of Copy elements, by value) -> index loop
+                # `for x in coll` (Vec<u32> by value or &RoaringBitmap: ascending ids) -> index loop over the prelude trait IdxIter
                 ls = out.rfind('\n', 0, m.start()) + 1
                 indent = re.match(r'[ \t]*', out[ls:]).group(0)
-                new = ('let mut idx__%d: usize = 0;\n%swhile idx__%d < %s.len() ' % (n, indent, n, expr))
-                body_ins = '\n%s    let %s = %s[idx__%d];\n%s    idx__%d += 1;' % (indent, pat, expr, n, indent, n)
+                new = ('let mut idx__%d: usize = 0;\n%swhile idx__%d < %s.count_() ' % (n, indent, n, expr))
+                body_ins = '\n%s    let %s = %s.nth_(idx__%d);\n%s    idx__%d += 1;' % (indent, pat, expr, n, indent, n)
                 out = out[:m.start()] + new + '{' + body_ins + out[ob + 1:]
                 n += 1
                 found = 'restart'
